@@ -39,11 +39,16 @@ def _trace(trace_path, idx):
             os.close(fd)
 
 
-def process_item(item, *sketches, trace_path=None, die_on_kth=None, die_flag=None, **kwargs):
-    """The callback handed to parallel_add / _worker by the C08 and C19 checks."""
+def process_item(item, *sketches, trace_path=None, die_on_kth=None, die_flag=None, delay=None, **kwargs):
+    """The callback handed to parallel_add / _worker by the C08 and C19 checks.
+    delay (real runs only): seconds to sleep per item, so that a worker that comes up first does not
+    drain the queue before the others have finished importing the package."""
     idx, adds, ret, mode, cut = item
     _calls_in_this_process[0] += 1
     _trace(trace_path, idx)
+    if delay:
+        import time
+        time.sleep(delay)
     if die_on_kth is not None and _calls_in_this_process[0] == die_on_kth and die_flag:
         # exactly one worker dies: the first one to reach its k-th item
         try:
